@@ -19,6 +19,7 @@ import (
 	"strconv"
 	"strings"
 	"sync"
+	"unsafe"
 
 	"github.com/modern-go/reflect2"
 )
@@ -32,6 +33,15 @@ type FieldAccessor struct {
 	Field  reflect2.StructField
 	Encode EncodeHandler
 	Decode DecodeHandler
+	// offset of the (embedded) struct that declares Field within the outermost struct
+	offset uintptr
+}
+
+// unsafeGet returns the address of the field in the struct p points to. Field alone only knows
+// its offset within the struct that declares it: for a promoted field of an embedded struct
+// that does not sit at the start of the outer struct the two differ.
+func (f *FieldAccessor) unsafeGet(p unsafe.Pointer) unsafe.Pointer {
+	return f.Field.UnsafeGet(unsafe.Pointer(uintptr(p) + f.offset))
 }
 
 func stripOptions(tag string) string {
@@ -63,7 +73,7 @@ func fieldAlias(tag reflect.StructTag, name string, tags []string) string {
 	return name
 }
 
-func _getFields(t reflect2.StructType, tags []string, mapping map[string]struct{}, fields []FieldAccessor) []FieldAccessor {
+func _getFields(t reflect2.StructType, tags []string, mapping map[string]struct{}, fields []FieldAccessor, offset uintptr) []FieldAccessor {
 	n := t.NumField()
 	for i := 0; i < n; i++ {
 		f := t.Field(i)
@@ -75,7 +85,7 @@ func _getFields(t reflect2.StructType, tags []string, mapping map[string]struct{
 			continue
 		case reflect.Struct:
 			if f.Anonymous() {
-				fields = _getFields(ft.(reflect2.StructType), tags, mapping, fields)
+				fields = _getFields(ft.(reflect2.StructType), tags, mapping, fields, offset+f.Offset())
 				continue
 			}
 		}
@@ -96,6 +106,7 @@ func _getFields(t reflect2.StructType, tags []string, mapping map[string]struct{
 		field.Type = ft
 		field.Alias = name
 		field.Field = f
+		field.offset = offset
 		typ := ft.Type1()
 		if field.Encode = GetEncodeHandler(typ); field.Encode == nil {
 			continue
@@ -111,7 +122,7 @@ func _getFields(t reflect2.StructType, tags []string, mapping map[string]struct{
 }
 
 func getFields(t reflect.Type, tag ...string) []FieldAccessor {
-	return _getFields(reflect2.Type2(t).(reflect2.StructType), tag, map[string]struct{}{}, nil)
+	return _getFields(reflect2.Type2(t).(reflect2.StructType), tag, map[string]struct{}{}, nil, 0)
 }
 
 var structFieldMapCache sync.Map
